@@ -60,6 +60,16 @@ let handle toks =
       (match extract_frame_x (bytes_of_hex b) with
        | XF (w, n) -> show_w w ^ " " ^ string_of_int (int_of_nat n)
        | XShort -> "SHORT" | XInv -> "INVALID" | XRaise -> "RAISE")
+  | "txseq" :: s0 :: evs ->
+      let ev_of t = match String.split_on_char ':' t with
+        | ["s"; h; d] -> (match to_frame (ni h) (bytes_of_hex d) with Some f -> TSend f | None -> failwith "toframe")
+        | ["a"; n] -> TAck (ni n)
+        | ["x"] -> TExpire
+        | ["d"; q] -> TDataIn (ni q)
+        | ["c"] -> TClose
+        | _ -> failwith ("bad event " ^ t) in
+      let (s, ws) = trun (ni s0) (List.map ev_of evs) in
+      String.concat ";" (List.map hex_of_bytes ws) ^ " // seq=" ^ si s
   | ["specparse"; b] ->
       String.concat ";" (List.map (fun (o, w) -> string_of_int (int_of_nat o) ^ ":" ^ show_w w) (spec_parse_pos (bytes_of_hex b)))
   | ["specack"; q] -> hex_of_bytes (spec_ack_bytes (ni q))
